@@ -212,6 +212,30 @@ def main():
     samples = []
     funcs = set()
     per_obl = []
+    # shards in which every path fell outside the harness precondition (Skip) are empty slices of a sharded
+    # obligation, not obligations of their own - unless *all* shards of the obligation are empty (then: vacuous)
+    def _is_empty(r):
+        l = r["last"]
+        return (l["status"] == "INCONCLUSIVE" and l.get("confirmed_paths", 0) == 0 and l.get("unknown_paths", 0) == 0
+                and l.get("exhausted") and l.get("ignored_paths", 0) == l.get("paths", -1) and not r["known_hit"]
+                and r["violation"] is None and not r["disagreements"])
+
+    by_obl = {}
+    for r in results:
+        by_obl.setdefault(r["obl"].id, []).append(r)
+    empty_shards = []
+    kept = []
+    for oid, rs in by_obl.items():
+        nonempty = [r for r in rs if not _is_empty(r)]
+        if nonempty and len(rs) > 1:
+            for r in rs:
+                if _is_empty(r):
+                    empty_shards.append({"obligation": oid, "shard": r["shard"]})
+            kept.extend(nonempty)
+        else:
+            kept.extend(rs)
+    results = sorted(kept, key=lambda r: (r["obl"].id, -1 if r["shard"] is None else r["shard"]))
+    n_obl = len(results)
     for r in results:
         o, last = r["obl"], r["last"]
         for rr in r["rounds"]:
@@ -278,6 +302,7 @@ def main():
                 "discharged": discharged,
                 "inconclusive": inconclusive,
                 "blocked_by_known_finding": blocked,
+                "empty_shards": empty_shards,
                 "exhaustive": len(inconclusive) == 0 and not violations,
                 "solver_queries": queries,
                 "solver_time_s": round(solver_s, 2),
